@@ -450,6 +450,74 @@ fn run_script(si: usize, script: &[bool], acc: &mut Acc) {
     }
 }
 
+/// zero-sized function types: every sequence of <= 4 calls over three unit-struct functions and two
+/// arguments; each call yields its own function's result, cacheable ones are invoked once per
+/// argument, the non-cacheable one on every call.  (One process-wide counter set: run serially.)
+pub fn zst_leg() -> (Acc, u64) {
+    use super::probe::zst;
+    let mut acc = Acc::new();
+    let names = ["zd", "zt", "zn"];
+    let args = [7i128, 8];
+    let alphabet: Vec<(usize, usize)> = (0..3).flat_map(|f| (0..2).map(move |a| (f, a))).collect();
+    let mut seqs: Vec<Vec<(usize, usize)>> = Vec::new();
+    let mut frontier: Vec<Vec<(usize, usize)>> = vec![vec![]];
+    for _ in 0..4 {
+        let mut next = Vec::new();
+        for s in &frontier {
+            for c in &alphabet {
+                let mut t = s.clone();
+                t.push(*c);
+                next.push(t);
+            }
+        }
+        seqs.extend(next.iter().cloned());
+        frontier = next;
+    }
+    let n = seqs.len() as u64;
+    for calls in &seqs {
+        for both_orders in [false, true] {
+            acc.count("executions", 1);
+            let text = format!("[{}]", calls.iter().map(|(f, a)| format!("{}(i{})", names[*f], args[*a])).collect::<Vec<_>>().join(", "));
+            let b = ruleset().with_rule(Rule::new("r", BTreeMap::new(), Expr::parse(&text).unwrap()));
+            let b = if both_orders {
+                b.and_then(|b| b.with_function(zst::ZNegate)).and_then(|b| b.with_function(zst::ZTriple)).and_then(|b| b.with_function(zst::ZDouble))
+            } else {
+                b.and_then(|b| b.with_function(zst::ZDouble)).and_then(|b| b.with_functions(vec![Box::new(zst::ZTriple) as Box<dyn UserFunction + Send + Sync>, Box::new(zst::ZNegate)]))
+            };
+            let rs = match b {
+                Ok(b) => b.build(),
+                Err(e) => {
+                    acc.machinery(format!("zst leg: {e}"));
+                    continue;
+                }
+            };
+            zst::reset();
+            let got = catch(|| block_on(rs.evaluate_value(&Value::None)));
+            let made = zst::calls();
+            let want: Vec<Value> = calls.iter().map(|(f, a)| Value::Int(match f { 0 => args[*a] * 2, 1 => args[*a] * 3, _ => -args[*a] })).collect();
+            let mut want_calls = [0usize; 3];
+            for f in 0..2 {
+                want_calls[f] = (0..2).filter(|a| calls.contains(&(f, *a))).count();
+            }
+            want_calls[2] = calls.iter().filter(|c| c.0 == 2).count();
+            let ok = matches!(&got, Ok(Ok(Ok(o))) if o.len() == 1 && matches!(&o[0].value, Ok(Value::Vec(items)) if *items == want));
+            if !ok || made != want_calls {
+                acc.violation(Violation {
+                    sig: format!("zero-sized-functions/{}", if ok { "invocations" } else { "result" }),
+                    what: format!(
+                        "rule {text} with zero-sized function types zd (x2), zt (x3), zn (negate, not cacheable): result {:?}, invocations {made:?}; expected {want:?}, invocations {want_calls:?}",
+                        got.as_ref().map(|r| r.as_ref().map(|x| x.as_ref().map(|o| o.iter().map(|y| y.value.as_ref().map_err(|e| e.to_string()).cloned()).collect::<Vec<_>>()).map_err(|e| e.to_string())))
+                    ),
+                    case: json!({"kind": "zero-sized-functions"}),
+                    size: text.len(),
+                });
+            }
+            acc.outcome("zero-sized-functions");
+        }
+    }
+    (acc, n)
+}
+
 /// see the comment at the call site
 fn nan_leg() -> (Acc, u64) {
     fn bits_of(v: &Value) -> Value {
@@ -714,6 +782,12 @@ pub fn run(tier: Tier) -> i32 {
         rep.bound("nan_argument_leg", format!("{n} histories over three NaNs differing in sign / payload, lists of them, f0.0 and f-0.0"));
         rep.absorb(acc);
     }
+    {
+        let (acc, n) = zst_leg();
+        n_cases += n;
+        rep.bound("zero_sized_function_leg", format!("{n} call sequences <= 4 over three unit-struct functions x two arguments, two registration orders"));
+        rep.absorb(acc);
+    }
     // functions that return none: cached like any other result, counted by the invocation log
     {
         let fs = [0usize, 5, 6];
@@ -843,6 +917,19 @@ pub fn run(tier: Tier) -> i32 {
 }
 
 pub fn replay(case: &serde_json::Value) -> i32 {
+    if case.get("kind").and_then(|k| k.as_str()) == Some("zero-sized-functions") {
+        let (acc, n) = zst_leg();
+        println!("re-ran the {n} zero-sized-function sequences");
+        return if acc.violations.is_empty() {
+            println!("verdict: holds");
+            0
+        } else {
+            for v in acc.violations.values() {
+                println!("verdict: VIOLATED — {}", v.what);
+            }
+            1
+        };
+    }
     if case.get("kind").and_then(|k| k.as_str()) == Some("nan-arguments") {
         let (acc, n) = nan_leg();
         println!("re-ran the {n} NaN-argument histories");
